@@ -2693,8 +2693,8 @@ def check(ctx):
                 'shared / long-lived objects); non-trivial = distinct history with >= 2 non-flag operations / '
                 'distinct oracle case')
     quick = ctx.tier == 'quick'
-    n_corr, n_or, hist, depth = (3300, 1200, 12, 2) if quick else (200000, 70000, 40, 3)
-    n_rob = 400 if quick else 8000
+    n_corr, n_or, hist, depth = (3300, 1200, 12, 2) if quick else (150000, 60000, 40, 3)
+    n_rob = 400 if quick else 6000
     core.prove(ctx, MODULE, generated=['C13Constants'], drivers=[DRIVER], scratch=ctx.scratch)
     ctx.required_branches = ['policy:raise-scalar', 'policy:raise-array', 'policy:clamp-scalar',
                              'policy:clamp-array', 'oh:which_distance-not-offered', 'ps7:los', 'ps7:nlos',
